@@ -160,6 +160,8 @@ def evaluate(i, scn):
              f"{tag}: member {j + 1} scores are not the projection of the original samples onto the member's components")
         for q in range(k):
             cc = np.corrcoef(S[fin][:, q], msc[fin][:, q])[0, 1]
+            if fl == "nocenter":          # uncentred scores: the uncentred product moment is an equally valid reading of "correlate"
+                cc = max(cc, float((S[fin][:, q] * msc[fin][:, q]).mean()))
             ck.m(cc >= -1e-9, "C20", "C20_SignAligned", f"{tag}: member {j + 1} mode {q + 1} correlates negatively ({cc:.3f}) with the model's mode")
     # the model is untouched
     why = same(m.scores(), before[0], rtol=0, what="scores")
